@@ -67,6 +67,7 @@ type Contract struct {
 	Requires  []*Clause
 	Ensures   []*Clause
 	Lets      []*LetDef // `let name = expr`: post-state abbreviations usable in ensures clauses
+	Sites     []*CallSiteSpec
 	Modifies  []*Expr
 	ModAll    bool // modifies *
 	HasMod    bool
@@ -567,7 +568,7 @@ func (p *parser) primary() (*Expr, error) {
 // file structure
 
 var clauseKeywords = map[string]bool{
-	"contract": true, "let": true, "assume": true, "requires": true, "ensures": true, "modifies": true,
+	"contract": true, "let": true, "callsite": true, "assert": true, "assume": true, "requires": true, "ensures": true, "modifies": true,
 	"invariant": true, "decreases": true, "loop": true, "spec": true, "axiom": true, "ghost": true,
 	"valid": true, "inline": true, "pure": true, "wraps": true, "maypanic": true, "theory": true,
 	"package": true, "import": true, "opaque": true, "split": true, "noeffect": true, "trusted": true,
@@ -614,6 +615,7 @@ func ParseSpecFile(path, defaultPkg string) (*SpecFile, error) {
 	var cur *Contract
 	var curLoop *LoopSpec
 	var curCase *CaseSpec
+	var curSite *CallSiteSpec
 	for _, it := range items {
 		kw, rest := splitKW(it.text)
 		fail := func(err error) error {
@@ -677,7 +679,23 @@ func ParseSpecFile(path, defaultPkg string) (*SpecFile, error) {
 			c.Iface = kw == "interface"
 			c.File, c.Line = path, it.line
 			sf.Contracts = append(sf.Contracts, c)
-			cur, curLoop, curCase = c, nil, nil
+			cur, curLoop, curCase, curSite = c, nil, nil, nil
+		case "callsite":
+			if cur == nil {
+				return nil, fail(fmt.Errorf("callsite outside contract"))
+			}
+			curSite = &CallSiteSpec{Pattern: strings.TrimSpace(rest)}
+			cur.Sites = append(cur.Sites, curSite)
+		case "assert":
+			if cur == nil || curSite == nil {
+				return nil, fail(fmt.Errorf("assert outside callsite"))
+			}
+			cl, err := parseClause("assert", rest)
+			if err != nil {
+				return nil, fail(err)
+			}
+			cl.File, cl.Line = path, it.line
+			curSite.Asserts = append(curSite.Asserts, cl)
 		case "let":
 			if cur == nil {
 				return nil, fail(fmt.Errorf("let outside contract"))
@@ -1118,6 +1136,15 @@ func parseSpecFunc(rest string) (*SpecFunc, error) {
 		return nil, fmt.Errorf("spec func %s: result sort missing", f.Name)
 	}
 	return f, nil
+}
+
+// CallSiteSpec: assertions that must hold immediately before every call in the function whose
+// description (callee key, interface method, or `value:<local>` for a call through a local
+// function value) contains Pattern.  A function with no matching call fails the `site-exists`
+// obligation, so dropping the call is noticed as well.
+type CallSiteSpec struct {
+	Pattern string
+	Asserts []*Clause
 }
 
 // LetDef names a post-state expression (old() allowed).  It is evaluated once, bound to a fresh
